@@ -156,13 +156,44 @@ def decorator_schedules(repo, tier):
     return _schedules("decorator", "C15", repo, tier)
 
 
-def lru_methods(repo, tier):
-    """lru_cache as method / classmethod / staticmethod against functools.lru_cache: bounded native stand-in on the real code"""
+def retention(repo, tier):
+    """bounded native stand-in for C20 on the real code (replay/retention.py): weakly referenced streams through every
+    streaming tool / single-pass aggregation, alive items counted after every step"""
+    r = _native("retention.py", repo, tier, timeout=1500)
+    if "error" in r:
+        return [dict(_result("bounded:retention", ("C20",), []), crash=r["error"])]
+    v = r["violations"]
+    ob = {"name": "bounded/retention-native", "kind": "bounded", "status": "discharged" if not v else "failed", "count": 0,
+          "detail": f"{r['cases']} tool/stream combinations; {r['bound']}; worst alive counts {r['worst']}; " + ("; ".join(v[:2]) if v else "no violation"),
+          "model": None, "trace": None, "native": {"violation": v[0], "more": v[1:4]} if v else None}
+    return [_result("bounded:retention", ("C20",), [ob])]
+
+
+def contextmanager_native(repo, tier):
+    """bounded native stand-in for C13 on the real code: the abstract domain of the contextmanager jobs (generator
+    behaviours x block outcomes) enumerated natively against contextlib.asynccontextmanager"""
+    r = _native("native.py", repo, "--enumerate-contextmanager", timeout=600)
+    if "error" in r:
+        return [dict(_result("bounded:contextmanager-native", ("C13",), []), crash=r["error"])]
+    v = r["violations"]
+    ob = {"name": "bounded/contextmanager-vs-asynccontextmanager", "kind": "bounded", "status": "discharged" if not v else "failed", "count": 0,
+          "detail": f"{r['cases']} combinations; {r['bound']}; " + ("; ".join(v[:2]) if v else "no difference"),
+          "model": None, "trace": None, "native": {"violation": v[0], "more": v[1:4]} if v else None}
+    return [_result("bounded:contextmanager-native", ("C13",), [ob])]
+
+
+def lru_methods_c03(repo, tier):
+    return lru_methods(repo, tier, prop="C03")
+
+
+def lru_methods(repo, tier, prop="C10"):
+    """lru_cache as method / classmethod / staticmethod, wrapping an async def / a partial of one / a callable object,
+    against functools.lru_cache on the synchronous counterparts: bounded native stand-in on the real code"""
     r = _native("bounded.py", repo, "refs", tier)
     if "error" in r:
-        return [dict(_result("bounded:lru-methods", ("C10",), []), crash=r["error"])]
+        return [dict(_result("bounded:lru-methods", (prop,), []), crash=r["error"])]
     v = r.get("lru_method_violations", [])
     ob = {"name": "bounded/lru-methods-vs-functools", "kind": "bounded", "status": "discharged" if not v else "failed", "count": 0,
-          "detail": "random histories of method/classmethod/staticmethod calls on two instances, cache_info, cache_clear; " + ("; ".join(v[:2]) if v else "no difference"),
+          "detail": "random histories of method/classmethod/staticmethod calls (async def, partial, callable-object flavours) on two instances, cache_info, cache_clear; " + ("; ".join(v[:2]) if v else "no difference"),
           "model": None, "trace": None, "native": {"violation": v[0]} if v else None}
-    return [_result("bounded:lru-methods", ("C10",), [ob])]
+    return [_result("bounded:lru-methods", (prop,), [ob])]
